@@ -842,6 +842,10 @@ func (s *State) extendFunctionEnv(
 		}
 	}
 	if fn.Variadic {
+		for i, e := range extra {
+			// Like the named parameters, the extra arguments are values, not references to the caller's variables.
+			extra[i] = object.Value(e)
+		}
 		env.SetNoChecks("..", object.NewArray(extra), true)
 	}
 	// Recursion is handle specially in Get (defining "self" and the function name in the env)
